@@ -55,6 +55,19 @@ T = {
  "C25-b": ("tls/conn.go halfConn.decrypt: TLS 1.3 padding scan 'i >= 0' became 'i > 0'", "a TLS 1.3 record with zero content bytes (or an all-zero inner plaintext)", "tls"),
  "C28-b": ("tls/tls_handshake.go clientHelloMsg.MakeLog: session-ticket buffer sized from len(m.sessionId)", "a ClientHello offering a session ticket longer than the session id", "tls"),
  "C29-b": ("tls/handshake_client.go ClientFingerprintConfiguration.marshal: cipher-suite list length high byte computed with >> 8 instead of >> 7", "a fingerprint configuration with 128 or more cipher suites", "tls"),
+ "C04-b": ("x509/x509.go buildExtensions: the AuthorityKeyId override guard looks for the SubjectKeyId OID in ExtraExtensions", "a template with AuthorityKeyId set and a SubjectKeyId (or AuthorityKeyId) override among ExtraExtensions", "x509"),
+ "C05-b": ("x509/x509.go CreateRevocationList: 'continue' became 'break' when a user-supplied reasonCode extension is met while copying an entry's ExtraExtensions", "a revoked entry whose ExtraExtensions has a reasonCode extension that is not the last element", "x509"),
+ "C08-b": ("x509/cert_pool.go Covers: new size fast path returns false when both pools have the same size ('<=' instead of '<')", "Covers on a pool of equal size holding the same certificates (p.Covers(p), empty pools)", "x509"),
+ "C11-b": ("verifier/walk.go continueWalking: the 'current == nil' guard now runs before the root-edge check", "a walk starting at a trust anchor that is not self-signed and whose issuer is absent from the graph", "verifier"),
+ "C14-b": ("x509/revocation/crl/crl.go CheckCRLForCert: the linear search no longer stops at the first matching entry", "no cache and a CRL listing the queried serial more than once with different revocation times", "x509/revocation/crl"),
+ "C15-b": ("x509/revocation/google/google.go getHeader: 'len(c) < headerLen' became '<='", "a CRLSet consisting of exactly its header (no issuer records)", "x509/revocation/google"),
+ "C20-b": ("encoding/asn1/asn1.go parseInt64: permissive mode strips leading zero octets without looking at the next octet's sign bit", "permissive mode and an INTEGER whose content starts 00 followed by an octet >= 0x80 (128..255, 32768..): decodes negative", "encoding/asn1"),
+ "C22-b": ("x509/pkix/pkix.go FillFromRDNSequence: JurisdictionProvince appended to the JurisdictionLocality slice", "a name with both JurisdictionLocality and JurisdictionProvince, or two provinces", "x509/pkix"),
+ "C23-b": ("rsa/rsa.go decryptOAEP: the key-size guard uses mgfHash.Size() instead of hash.Size()", "OAEP decryption with different label and MGF hashes and a key between the two size limits: wrongful refusal or slice panic", "rsa"),
+ "C27-b": ("tls/handshake_client.go loadSession: the 'original handshake was not verified' guard tests len(session.serverCertificates) instead of len(session.verifiedChains)", "a verifying client sharing a session cache entry created by a handshake with InsecureSkipVerify", "tls"),
+ "C31-b": ("tls/handshake_server.go checkForResumption: the suite is selected from the client's offer instead of the ticket's suite", "a ticket whose suite is not the first mutually supported suite of the client's offer", "tls"),
+ "C33-b": ("json/rsa.go RSAPublicKey.MarshalJSON: length written as N.BitLen() instead of 8*len(modulus)", "an RSA modulus whose bit length is not a multiple of 8", "json"),
+ "C35-b": ("tls/common.go lruSessionCache.Put: removal of a present key no longer removes its list element", "Put(key, nil) on a present key followed by insertions of new keys", "tls"),
  "C32-a": ("tls/conn.go readRecordOrCCS: 'len(data) != 1' became 'len(data) > 1' for change_cipher_spec", "a change_cipher_spec record with an empty body after the version is fixed: index out of range", "tls"),
 }
 res = {}
